@@ -105,6 +105,9 @@ func Endorse(r *core.Run, a *worlda.Authority, vcs endorse.VersionControl, q Req
 
 func endorseLib(a *worlda.Authority, vcs endorse.VersionControl, q Req) error {
 	v, err := a.View()
+	if a.Decorate {
+		v, err = a.DecoratedView()
+	}
 	if err != nil {
 		return err
 	}
